@@ -15,7 +15,8 @@ import threading
 import types
 
 ACK = '$server_shutdown%%%%%'
-JOIN_TIMEOUT = [10.0]     # safety net for real joins: never reached on code that stops its threads
+LONG_JOIN = 120.0         # a real join that takes longer than this is reported as a note (load), never as a failure
+UNTOLD_JOIN = [3.0]       # join of a thread whose stop flag is NOT set: it has no reason to end
 
 
 class WouldBlock(BaseException):
@@ -35,7 +36,9 @@ class World:
         self.refuse_ports = set()
         self.inject_send_failure = False
         self.main_waits = []         # ids of pending timers joined from the main context
-        self.hung_joins = []
+        self.hung_joins = []         # joins that can never return, for a deterministic reason
+        self.slow_joins = []         # joins that timed out although the thread was told to stop (load)
+        self.stop_flag = None        # callable: has the flag the instance's threads poll been set
         self.errors = []             # exceptions that ended a callback (the thread would have died)
 
     def register(self, o, kind):
@@ -159,14 +162,35 @@ class RecThread(threading.Thread):
     def finished(self):
         return not self.is_alive()
 
+    def never_ends(self):
+        """a deterministic reason why waiting for this thread would never return, or None"""
+        target = getattr(self, '_target', None)
+        srv = getattr(target, '__self__', None)
+        if isinstance(srv, FakeHTTPServer):
+            return None if srv._ev.is_set() else 'serve_forever was not shut down'
+        return None
+
     def join(self, timeout=None):
         w = self.world
         if w.current is not None and self.is_alive():
             raise WouldBlock(self)
-        threading.Thread.join(self, JOIN_TIMEOUT[0] if timeout is None else timeout)
-        if timeout is None and self.is_alive():
-            w.hung_joins.append(self.vid)
-            JOIN_TIMEOUT[0] = 0.3      # one long wait per process is enough to call it a hang
+        if timeout is not None or not self.is_alive():
+            threading.Thread.join(self, timeout)
+            return
+        reason = self.never_ends()
+        if reason:
+            w.hung_joins.append((self.vid, reason))      # do not wait for what cannot happen
+            return
+        told = w.stop_flag is None or bool(w.stop_flag())
+        if not told:
+            threading.Thread.join(self, UNTOLD_JOIN[0])
+            if self.is_alive():
+                w.hung_joins.append((self.vid, 'joined although the stop flag it polls is not set'))
+                UNTOLD_JOIN[0] = 0.3
+            return
+        threading.Thread.join(self, LONG_JOIN)
+        if self.is_alive():
+            w.slow_joins.append(self.vid)
 
 
 class FakeSocket:
